@@ -189,6 +189,9 @@ class PM:
             except Unmodelled:
                 pass
         for fld, v in list(self.value.fields.items()):
+            if isinstance(v, ListV) and v.kind == "series" and getattr(v, "constant", False) and len(v.init) == 1 and v.popped == 1:
+                self.value.fields[fld] = ListV("rep", elem=v.init[0], n=lp.n)   # [c] + n times c, last one dropped
+                continue
             if not (isinstance(v, ListV) and v.kind == "fam" and v.lo.is_zero()):
                 continue
             src = getattr(v, "over_series", None)
@@ -200,6 +203,12 @@ class PM:
                 e = ev.subst_val(v.elem, {v.idx.id: Rat.atom(lp.k)})
                 ek = poly.key_str(val_key(e))
             except Unmodelled:
+                continue
+            deps = poly.key_deps(val_key(e))
+            evolving = (lp.k.id in deps) or "[k]" in poly.full_key_text(val_key(e))
+            if not evolving:
+                # the same value at every step (constant temperature, constant permeances ...): what `[c] * n` is
+                self.value.fields[fld] = ListV("rep", elem=e, n=lp.n)
                 continue
             name = ph_keys.get(ek)
             if name is not None and name in lp.carried_after:
